@@ -79,19 +79,16 @@ Proof. intros Hs He. unfold read_at. apply slice_length. lia. Qed.
 (* ------------------------------------------------------------------ *)
 (* the store invariant                                                 *)
 (* ------------------------------------------------------------------ *)
-(* windows of active non-empty frames are inside [start, data_end], data_end and cached_payload_end
-   are inside the file, every such window ends at or before cached_payload_end, frame ids are distinct *)
+(* windows of active non-empty frames are inside [start, data_end], data_end is inside the file,
+   frame ids are distinct *)
 Definition in_bounds (st : vstate) (f : vframe) : Prop :=
   vf_len f = 0 \/
-  (vf_len f <= MAX_FRAME_BYTES /\ vs_start st <= vf_off f /\ vf_off f + vf_len f <= vs_data_end st /\
-   vf_off f + vf_len f <= vs_cpe st).
+  (vf_len f <= MAX_FRAME_BYTES /\ vs_start st <= vf_off f /\ vf_off f + vf_len f <= vs_data_end st).
 
 Record store_inv (st : vstate) : Prop := mkInv {
   inv_ids : NoDup (map vf_id (vs_frames st));
   inv_bounds : forall f, In f (vs_frames st) -> vf_active f = true -> in_bounds st f;
-  inv_data_end : vs_data_end st <= file_len st;
-  inv_cpe_lo : vs_start st <= vs_cpe st;
-  inv_cpe_hi : vs_cpe st <= file_len st }.
+  inv_data_end : vs_data_end st <= file_len st }.
 
 (* two windows: identical (payload sharing) or disjoint -- what ensure_non_overlapping_frames accepts *)
 Definition win_disjoint (f g : vframe) : Prop :=
@@ -115,7 +112,7 @@ Lemma validate_ok st f :
 Proof.
   intros Hde Hb. unfold validate.
   destruct (vf_len f =? 0) eqn:E0; [reflexivity|].
-  destruct Hb as [H0|(Hm & Hs & He & _)]; [lia|].
+  destruct Hb as [H0|(Hm & Hs & He)]; [lia|].
   destruct (MAX_FRAME_BYTES <? vf_len f) eqn:E1; [lia|].
   destruct (vf_off f <? vs_start st) eqn:E2; [lia|].
   destruct (vs_data_end st <? vf_off f + vf_len f) eqn:E3; [lia|].
@@ -242,7 +239,7 @@ Qed.
 Lemma frame_bytes_length st f :
   vs_data_end st <= file_len st -> in_bounds st f -> N.of_nat (length (frame_bytes st f)) = vf_len f.
 Proof.
-  intros Hde [H0|(Hm & Hs & He & _)]; unfold frame_bytes.
+  intros Hde [H0|(Hm & Hs & He)]; unfold frame_bytes.
   - rewrite H0, read_at_len0. reflexivity.
   - rewrite read_at_length; [lia|exact Hs|]. unfold file_len in Hde. lia.
 Qed.
@@ -258,7 +255,7 @@ Definition kept (st st' : vstate) (f f' : vframe) : Prop :=
   else vf_off f' = 0 /\ vf_len f' = 0.
 
 Lemma store_inv_checkpoint st : store_inv st -> store_inv (checkpoint st).
-Proof. intros [H1 H2 H3 H4 H5]. constructor; assumption. Qed.
+Proof. intros [H1 H2 H3]. constructor; assumption. Qed.
 
 (* the rewrite (read phase + write phase), for every state meeting the invariant: windows may overlap
    or be shared in any way -- every read happens before the first write *)
@@ -268,11 +265,11 @@ Lemma rewrite_correct st :
     Forall2 (kept st st1) (vs_frames st) (vs_frames st1) /\
     vs_frames st1 = relocate (vs_frames st) (vs_start st) /\
     vs_data_end st1 = vs_start st + active_bytes (vs_frames st) /\
-    vs_start st1 = vs_start st /\ vs_cpe st1 = vs_cpe st /\ vs_footer st1 = vs_footer st /\
+    vs_start st1 = vs_start st /\ vs_cpe st1 = vs_data_end st1 /\ vs_footer st1 = vs_footer st /\
     vs_lex st1 = vs_lex st /\ vs_vec st1 = vs_vec st /\ vs_pending st1 = vs_pending st /\
     vs_data_end st1 <= file_len st1 /\ file_len st <= file_len st1.
 Proof.
-  intros [Hids Hb Hde Hlo Hhi].
+  intros [Hids Hb Hde].
   destruct (read_phase_ok st (vs_frames st) [] Hde Hb Hids) as (m & Hm & Hget & _).
   unfold rewrite. rewrite Hm.
   assert (Hsome : forall f, In f (vs_frames st) -> vf_active f = true -> exists b, hm_get m (vf_id f) = Some b).
@@ -377,25 +374,23 @@ Proof.
   destruct (IH Hy) as (x & Hx & Hr). exists x. split; [right; exact Hx|exact Hr].
 Qed.
 
-Lemma known_overflow_false st :
-  known_overflow st = false <-> vs_start st + active_bytes (vs_frames st) <= vs_cpe st.
-Proof. unfold known_overflow. rewrite N.ltb_ge. reflexivity. Qed.
-
-Theorem vacuum_correct st ix :
-  store_inv st -> known_overflow st = false ->
-  exists st', vacuum st ix = Ok st' /\
+Lemma vacuum_core_correct st ix :
+  store_inv st ->
+  exists st', vacuum_core st ix = Ok st' /\
     Forall2 (kept st st') (vs_frames st) (vs_frames st') /\
     vs_frames st' = relocate (vs_frames st) (vs_start st) /\
-    vs_start st' = vs_start st /\ vs_cpe st' = vs_cpe st /\ vs_footer st <= vs_footer st' /\
+    vs_start st' = vs_start st /\
+    vs_cpe st' = vs_start st + active_bytes (vs_frames st) /\
+    vs_data_end st' <= vs_cpe st' /\
+    vs_footer st <= vs_footer st' /\
     store_inv st'.
 Proof.
-  intros Hinv Hk. apply known_overflow_false in Hk.
+  intros Hinv.
   destruct (rewrite_correct (checkpoint st) (store_inv_checkpoint st Hinv))
     as (st1 & Hrw & Hall & Htab & Hde & Hst & Hcpe & Hfo & Hlex & Hvec & _ & Hdf & Hfl).
   cbn [checkpoint vs_frames vs_start vs_cpe vs_footer vs_lex vs_vec] in *.
-  destruct Hinv as [Hids Hb Hde0 Hlo Hhi].
-  change (file_len (checkpoint st)) with (file_len st) in Hfl.
-  unfold vacuum. rewrite Hrw. eexists. split; [reflexivity|].
+  destruct Hinv as [Hids Hb Hde0].
+  unfold vacuum_core. rewrite Hrw. eexists. split; [reflexivity|].
   destruct (rebuild_fields st1 ix) as (R1 & R2 & R3 & R4 & _).
   assert (Hpre : forall f, validate st1 f = Ok tt ->
             frame_bytes (rebuild st1 ix) f = frame_bytes st1 f /\ validate (rebuild st1 ix) f = Ok tt /\
@@ -408,17 +403,16 @@ Proof.
     destruct (vf_active f); [|exact K6]. destruct K6 as (L1 & L2 & L3).
     destruct (Hpre f' L3) as (P1 & P2 & _). split; [exact L1|]. split; [|exact P2].
     rewrite P1. exact L2. }
-  rewrite R2. split; [exact Hkept|]. split; [exact Htab|]. split; [lia|]. split; [lia|]. split; [lia|].
-  (* the invariant holds again *)
-  assert (Hglob : vs_data_end (rebuild st1 ix) <= vs_cpe st1 /\ vs_data_end (rebuild st1 ix) <= file_len (rebuild st1 ix) /\
-                  vs_cpe st1 <= file_len (rebuild st1 ix)).
+  assert (Hglob : vs_data_end (rebuild st1 ix) <= vs_cpe st1 /\ vs_data_end (rebuild st1 ix) <= file_len (rebuild st1 ix)).
   { unfold rebuild. destruct (_ && _ && _).
-    - repeat split; lia.
+    - split; lia.
     - set (P := N.to_nat (vs_cpe st1 - vs_start st1)).
       assert (HP : (P <= length (vs_region st1))%nat) by (unfold file_len in *; subst P; lia).
       pose proof (write_at_length (vs_region st1) P ix HP) as Hlen.
-      unfold file_len. cbn [vs_region vs_start vs_data_end]. unfold file_len in *. repeat split; lia. }
-  destruct Hglob as (G1 & G2 & G3).
+      unfold file_len. cbn [vs_region vs_start vs_data_end]. unfold file_len in *. split; lia. }
+  destruct Hglob as (G1 & G2).
+  rewrite R2. split; [exact Hkept|]. split; [exact Htab|]. split; [lia|]. split; [lia|]. split; [lia|]. split; [lia|].
+  (* the invariant holds again *)
   constructor.
   - rewrite R2, Htab, relocate_ids. exact Hids.
   - rewrite R2. intros f' Hf' Ha'.
@@ -426,10 +420,8 @@ Proof.
     assert (Ha : vf_active f = true) by (unfold vf_active in *; rewrite <- K2; exact Ha').
     rewrite Ha in K6. destruct K6 as (_ & _ & L3).
     destruct (validate_inv _ _ L3) as [H0|(M1 & M2 & M3 & M4)]; [left; exact H0|].
-    right. rewrite R1, R3 in *. repeat split; try lia.
+    right. rewrite R1 in *. repeat split; try lia.
   - exact G2.
-  - rewrite R1, R3. lia.
-  - rewrite R3. lia.
 Qed.
 
 (* ------------------------------------------------------------------ *)
@@ -553,15 +545,19 @@ Proof.
   - lia.
 Qed.
 
-(* without window sharing the rewritten payloads always fit below cached_payload_end *)
-Lemma disjoint_fits st : store_inv st -> all_disjoint st -> known_overflow st = false.
+(* without window sharing the compacted payloads end at or before any bound E that all old windows
+   respected: the payload region does not grow *)
+Lemma disjoint_fit_below fs start E :
+  start <= E -> pairwise win_disjoint (live fs) ->
+  (forall f, In f (live fs) -> start <= vf_off f /\ vf_off f + vf_len f <= E) ->
+  start + active_bytes fs <= E.
 Proof.
-  intros [Hids Hb Hde Hlo Hhi] Hd. apply known_overflow_false. rewrite active_bytes_live.
-  assert (H : total_len (live (vs_frames st)) <= vs_cpe st - vs_start st); [|lia].
-  apply (disjoint_total_le (length (live (vs_frames st)))); [lia|exact Hd| |exact Hlo].
-  intros f Hf. unfold live in Hf. apply filter_In in Hf. destruct Hf as [Hf Hp].
-  apply andb_true_iff in Hp. destruct Hp as [Ha Hn].
-  destruct (Hb f Hf Ha) as [H0|(M1 & M2 & M3 & M4)]; lia.
+  intros Hse Hd Hin. rewrite active_bytes_live.
+  assert (H : total_len (live fs) <= E - start); [|lia].
+  apply (disjoint_total_le (length (live fs))); [lia|exact Hd| |exact Hse].
+  intros f Hf. destruct (Hin f Hf) as [H1 H2]. split; [|split; assumption].
+  unfold live in Hf. apply filter_In in Hf. destruct Hf as [_ Hp].
+  apply andb_true_iff in Hp. destruct Hp as [_ Hn]. lia.
 Qed.
 
 (* ------------------------------------------------------------------ *)
@@ -574,11 +570,13 @@ Proof.
   destruct (write_phase _ _ _ _ _) as [[fs' c'] rg']. intros H. injection H as <-. cbn. auto.
 Qed.
 
-Lemma vacuum_pending st ix st' :
-  vacuum st ix = Ok st' ->
+(* HISTORICAL (before fix 4c0da7f, finding F-C42-2): the function ended after rebuild_indexes and left the
+   lex batch record pending, so verify on the closed file failed *)
+Lemma vacuum_core_pending st ix st' :
+  vacuum_core st ix = Ok st' ->
   vs_pending st' = if vs_lex st then 1 else 0.
 Proof.
-  unfold vacuum. destruct (rewrite (checkpoint st)) as [st1| |] eqn:Hr; try discriminate.
+  unfold vacuum_core. destruct (rewrite (checkpoint st)) as [st1| |] eqn:Hr; try discriminate.
   destruct (rewrite_lex_pending _ _ Hr) as (Hl & Hv & Hp). cbn [checkpoint vs_lex vs_vec vs_pending] in *.
   intros H. injection H as <-. unfold rebuild. rewrite Hl, Hv, Hp.
   destruct (vs_lex st); cbn [negb andb].
@@ -586,22 +584,49 @@ Proof.
   - destruct (_ && _); cbn [vs_pending]; lia.
 Qed.
 
-Lemma vacuum_verify_lex st ix st' : vs_lex st = true -> vacuum st ix = Ok st' -> verify_passed st' = false.
-Proof. intros Hl Hv. unfold verify_passed. rewrite (vacuum_pending _ _ _ Hv), Hl. reflexivity. Qed.
+Lemma historical_verify_failed_before_4c0da7f st ix st' :
+  vs_lex st = true -> vacuum_core st ix = Ok st' -> verify_passed st' = false.
+Proof. intros Hl Hv. unfold verify_passed. rewrite (vacuum_core_pending _ _ _ Hv), Hl. reflexivity. Qed.
 
-Lemma vacuum_verify_nolex st ix st' : vs_lex st = false -> vacuum st ix = Ok st' -> verify_passed st' = true.
-Proof. intros Hl Hv. unfold verify_passed. rewrite (vacuum_pending _ _ _ Hv), Hl. reflexivity. Qed.
+Lemma vacuum_unfold st ix :
+  vacuum st ix = match vacuum_core st ix with Ok s => Ok (checkpoint s) | Err k => Err k | Panic p => Panic p end.
+Proof. reflexivity. Qed.
+
+Lemma vacuum_verify st ix st' : vacuum st ix = Ok st' -> verify_passed st' = true.
+Proof.
+  rewrite vacuum_unfold. destruct (vacuum_core st ix); try discriminate. intros H. injection H as <-. reflexivity.
+Qed.
 
 Lemma doctor_verify st ix again st' : doctor_vacuum st ix again = Ok st' -> verify_passed st' = true.
 Proof.
   unfold doctor_vacuum. destruct (vacuum st ix); try discriminate. intros H. injection H as <-. reflexivity.
 Qed.
 
+Theorem vacuum_correct st ix :
+  store_inv st ->
+  exists st', vacuum st ix = Ok st' /\
+    Forall2 (kept st st') (vs_frames st) (vs_frames st') /\
+    vs_frames st' = relocate (vs_frames st) (vs_start st) /\
+    vs_start st' = vs_start st /\
+    vs_cpe st' = vs_start st + active_bytes (vs_frames st) /\
+    vs_data_end st' <= vs_cpe st' /\
+    vs_footer st <= vs_footer st' /\
+    vs_pending st' = 0 /\
+    store_inv st'.
+Proof.
+  intros Hi. destruct (vacuum_core_correct st ix Hi) as (s & Hv & Hall & Ht & Hs & Hc & Hd & Hf & Hinv).
+  exists (checkpoint s). rewrite vacuum_unfold, Hv. split; [reflexivity|].
+  split; [eapply Forall2_weaken; [|exact Hall]; intros f f' H; exact H|].
+  split; [exact Ht|]. split; [exact Hs|]. split; [exact Hc|]. split; [exact Hd|]. split; [exact Hf|].
+  split; [reflexivity|]. apply store_inv_checkpoint; exact Hinv.
+Qed.
+
 (* the file is never shorter afterwards: the footer offset (where the TOC goes) does not decrease *)
 Lemma vacuum_footer st ix st' : vacuum st ix = Ok st' -> vs_footer st <= vs_footer st'.
 Proof.
-  unfold vacuum. destruct (rewrite (checkpoint st)) as [st1| |] eqn:Hr; try discriminate.
+  unfold vacuum, vacuum_core. destruct (rewrite (checkpoint st)) as [st1| |] eqn:Hr; try discriminate.
   intros H. injection H as <-. destruct (rebuild_fields st1 ix) as (_ & _ & _ & Hf & _).
+  cbn [checkpoint vs_footer].
   revert Hr. unfold rewrite. destruct (read_phase _ _ _); try discriminate.
   destruct (write_phase _ _ _ _ _) as [[fs' c'] rg']. intros H. injection H as <-. cbn in *. exact Hf.
 Qed.
@@ -620,8 +645,6 @@ Proof.
   - repeat constructor; cbn; intuition discriminate.
   - intros f [<-|[<-|[<-|[]]]] Ha; try discriminate Ha; right; unfold MAX_FRAME_BYTES; cbn; lia.
   - unfold file_len; cbn; lia.
-  - lia.
-  - unfold file_len; cbn; lia.
 Qed.
 
 Lemma wit_share : share_or_disjoint wit.
@@ -631,8 +654,9 @@ Proof.
   - intros y [].
 Qed.
 
-Lemma wit_refutes :
-  exists st', vacuum wit wit_ix = Ok st' /\
+(* HISTORICAL: the code before fix f791181 (cached_payload_end left stale) on the witness *)
+Lemma historical_stale_cpe_refutation :
+  exists st', vacuum_pre_f791181 wit wit_ix = Ok st' /\
     exists f f', nth_error (vs_frames wit) 2 = Some f /\ nth_error (vs_frames st') 2 = Some f' /\
                  vf_active f = true /\ frame_bytes wit f = [1; 2; 3; 4] /\ frame_bytes st' f' = [7; 7; 7; 7] /\
                  validate st' f' = Err 3.
@@ -649,7 +673,7 @@ Proof.
 Qed.
 
 Lemma vacuum_views st ix :
-  store_inv st -> known_overflow st = false ->
+  store_inv st ->
   exists st', vacuum st ix = Ok st' /\
     table_view (vs_frames st') = table_view (vs_frames st) /\
     lex_docs (vs_frames st') = lex_docs (vs_frames st) /\
@@ -657,14 +681,14 @@ Lemma vacuum_views st ix :
     (forall (A : Type) (rebuild_from : list (N * N * N * N * bool) -> A),
         rebuild_from (table_view (vs_frames st')) = rebuild_from (table_view (vs_frames st))).
 Proof.
-  intros Hi Hk. destruct (vacuum_correct st ix Hi Hk) as (st' & Hv & _ & Ht & _).
+  intros Hi. destruct (vacuum_correct st ix Hi) as (st' & Hv & _ & Ht & _).
   exists st'. split; [exact Hv|]. rewrite Ht.
   destruct (relocate_index_sets (vs_frames st) (vs_start st)) as (V1 & V2 & V3).
   repeat split; try assumption. intros A g. rewrite V1. reflexivity.
 Qed.
 
 Lemma vacuum_layout st ix :
-  store_inv st -> known_overflow st = false ->
+  store_inv st ->
   exists st', vacuum st ix = Ok st' /\
     (forall i f, nth_error (vs_frames st) i = Some f ->
        nth_error (vs_frames st') i =
@@ -673,30 +697,36 @@ Lemma vacuum_layout st ix :
                else set_window f 0 0)) /\
     pairwise win_disjoint (live (vs_frames st')) /\
     (forall f', In f' (live (vs_frames st')) ->
-       vs_start st <= vf_off f' /\ vf_off f' + vf_len f' <= vs_start st + active_bytes (vs_frames st)) /\
-    vs_start st + active_bytes (vs_frames st) <= vs_cpe st.
+       vs_start st <= vf_off f' /\ vf_off f' + vf_len f' <= vs_cpe st') /\
+    vs_cpe st' = vs_start st + active_bytes (vs_frames st).
 Proof.
-  intros Hi Hk. destruct (vacuum_correct st ix Hi Hk) as (st' & Hv & _ & Ht & _).
-  exists st'. split; [exact Hv|]. rewrite Ht. split; [|split; [|split]].
+  intros Hi. destruct (vacuum_correct st ix Hi) as (st' & Hv & _ & Ht & _ & Hc & _).
+  exists st'. split; [exact Hv|]. rewrite Ht, Hc. split; [|split; [|split]].
   - intros i f Hn. apply relocate_nth; exact Hn.
   - apply relocate_disjoint.
   - apply relocate_in_range.
-  - apply known_overflow_false; exact Hk.
+  - reflexivity.
 Qed.
 
-Lemma vacuum_refuted :
-  exists st ix st', store_inv st /\ share_or_disjoint st /\ known_overflow st = true /\
-    vacuum st ix = Ok st' /\
-    exists i f f', nth_error (vs_frames st) i = Some f /\ nth_error (vs_frames st') i = Some f' /\
-                   vf_active f = true /\ frame_bytes st' f' <> frame_bytes st f /\ validate st' f' <> Ok tt.
+(* the payload region does not grow when no two active frames share or overlap *)
+Lemma vacuum_no_growth st ix E :
+  store_inv st -> all_disjoint st -> vs_start st <= E ->
+  (forall f, In f (live (vs_frames st)) -> vf_off f + vf_len f <= E) ->
+  exists st', vacuum st ix = Ok st' /\ vs_cpe st' <= E.
 Proof.
-  destruct wit_refutes as (st' & Hv & f & f' & H1 & H2 & H3 & H4 & H5 & H6).
-  exists wit, wit_ix, st'. split; [exact wit_inv|]. split; [exact wit_share|]. split; [reflexivity|].
-  split; [exact Hv|]. exists 2%nat, f, f'. repeat split; try assumption.
-  - rewrite H4, H5. discriminate.
-  - rewrite H6. discriminate.
+  intros Hi Hd Hse Hin. destruct (vacuum_correct st ix Hi) as (st' & Hv & _ & _ & _ & Hc & _).
+  exists st'. split; [exact Hv|]. rewrite Hc. apply disjoint_fit_below; [exact Hse|exact Hd|].
+  intros f Hf. split; [|apply Hin; exact Hf].
+  pose proof Hf as Hf0. unfold live in Hf0. apply filter_In in Hf0. destruct Hf0 as [Hf1 Hp].
+  apply andb_true_iff in Hp. destruct Hp as [Ha Hn].
+  destruct (inv_bounds st Hi f Hf1 Ha) as [H0|(M1 & M2 & M3)]; lia.
 Qed.
 
-(* overflow needs two live frames that are not disjoint (i.e. sharing or overlapping windows) *)
-Lemma overflow_needs_sharing st : store_inv st -> known_overflow st = true -> ~ all_disjoint st.
-Proof. intros Hi Hk Hd. rewrite (disjoint_fits st Hi Hd) in Hk. discriminate. Qed.
+(* with sharing the copies are separate afterwards and every one of them reads the shared bytes *)
+Lemma wit_fixed :
+  exists st', vacuum wit wit_ix = Ok st' /\
+    map (fun f => (vf_id f, vf_off f, vf_len f)) (vs_frames st') = [(0, 0, 0); (1, 100, 4); (2, 104, 4)] /\
+    map (frame_bytes st') (vs_frames st') = [[]; [1; 2; 3; 4]; [1; 2; 3; 4]] /\
+    vs_cpe st' = 108 /\ vs_data_end st' = 108.
+Proof. eexists. split; [vm_compute; reflexivity|]. vm_compute. repeat split; reflexivity. Qed.
+
